@@ -82,6 +82,10 @@ var provTemplates = []struct {
 	// one right side spread over several names, by var and by assignment
 	{"multi-var-spread", "var t, u = %s\n[t, u]", true}, {"multi-let-spread", "t, u = (%s)\n[t, u]", true}, {"multi-var-spread3", "var t, u, w = %s\nt", true},
 	{"multi-var-spread-in-func", "func() {\nvar t, u = %s\nreturn [u, t]\n}()", true},
+	// the two-value map read and what an assignment does with a module value
+	{"comma-ok-present-nil", "v, ok = %s[\"k\"]\n[v, ok]", false}, {"comma-ok-list", "v, ok = %s[0]\n[v, ok]", false}, {"comma-ok-missing", "v, ok = %s[\"zz\"]\n[v, ok]", false},
+	{"module-copy-let", "c = %s\nc.b = 2\n[vmodule.b, c.b]", false}, {"module-copy-var", "var c = %s\nc.b = 2\n[vmodule.b, c.b]", false},
+	{"module-copy-in-func", "func(p) {\nq = p\nq.b = 3\nreturn [p.b, q.b]\n}(%s)", false},
 	// methods of Go values whose type is a named non-struct type
 	{"method-string", "%s.String()", false}, {"method-get", "%s.Get(\"k\")", false}, {"method-seconds", "%s.Seconds()", false}, {"method-value", "ms = %s.String\nms()", false},
 	{"method-encode", "%s.Encode()", false}, {"method-celsius", "%s.F()", false},
@@ -101,7 +105,7 @@ func provValues() map[string]interface{} {
 		"vint": int64(3), "vfloat": 1.5, "vstr": "ab", "vbool": true, "vnil": nil, "vzero": int64(0),
 		"vlist": []interface{}{int64(1), int64(2)}, "vmap": map[interface{}]interface{}{"k": int64(1)},
 		"vgofn": func(x ...interface{}) int64 { return int64(len(x)) },
-		"vchan": ch, "vptr": &seven, "vdur": 1500 * time.Nanosecond, "vurl": url.Values{"k": {"v"}}, "vcel": provCelsius(100), "vone": int64(1), "vbig": int64(9007199254740993), "vbig0": int64(9007199254740992),
+		"vchan": ch, "vptr": &seven, "vdur": 1500 * time.Nanosecond, "vurl": url.Values{"k": {"v"}}, "vcel": provCelsius(100), "vmapnil": map[interface{}]interface{}{"k": nil}, "vone": int64(1), "vbig": int64(9007199254740993), "vbig0": int64(9007199254740992),
 	}
 }
 
@@ -110,7 +114,7 @@ func streamProv(o *Out, r *rand.Rand, n int, thorough bool) {
 		"delete, element assignment, channel ops, deref, conversion to Go parameters) x operand values (int, float, string, bool, nil, list, map, script and Go functions, " +
 		"channel, pointer) x provenance chains of length 1-3 (element, map entry, member, script call, script argument, Go call returning interface{}, parentheses, ?:, ??, " +
 		"multi-return element, variadic tail); oracle: outcome must equal the same template on the plain variable; F0 templates also through the model; distinct by request hash"
-	valNames := []string{"vint", "vfloat", "vstr", "vbool", "vnil", "vzero", "vlist", "vmap", "vfn", "vgofn", "vchan", "vptr", "vone", "vbig", "vbig0", "vdur", "vurl", "vcel"}
+	valNames := []string{"vint", "vfloat", "vstr", "vbool", "vnil", "vzero", "vlist", "vmap", "vfn", "vgofn", "vchan", "vptr", "vone", "vbig", "vbig0", "vdur", "vurl", "vcel", "vmodule", "vmapnil"}
 	run := func(src string) (vmResult, bool) {
 		stmt, err := parser.ParseSrc(src)
 		if err != nil {
@@ -123,6 +127,10 @@ func streamProv(o *Out, r *rand.Rand, n int, thorough bool) {
 			// Go functions with pointer parameters: they act on the value the pointer the script holds points to
 			_ = e.Define("setp", func(p *int64, v int64) int64 { old := *p; *p = v; return old })
 			_ = e.Define("readp", func(p *int64) int64 { return *p })
+			// a module value (assignment copies a module: the copy's bindings are its own)
+			if m, err := e.NewModule("vmodule"); err == nil {
+				_ = m.Define("b", int64(1))
+			}
 		})
 		return res, true
 	}
@@ -172,6 +180,9 @@ func streamProv(o *Out, r *rand.Rand, n int, thorough bool) {
 			want := outcome(base)
 			if t.name == "var-concat" && (vn == "vchan" || vn == "vptr" || vn == "vgofn" || vn == "vfn") {
 				continue // the text of a channel / pointer / function is its address: differs from run to run
+			}
+			if strings.Contains(want, "0xc0") || strings.Contains(want, "30786330") {
+				continue // the outcome prints an address (text of a module, channel, pointer): differs from run to run
 			}
 			if base.panicked {
 				o.Fail(Failure{Oracle: "no-panic", Key: "prov-panic:" + t.name + "/" + vn, Input: baseSrc, Detail: want})
